@@ -61,7 +61,7 @@ ScriptDup == <<{"Append"}, {"Commit"}, {"Truncate"}, {"Append"}, {"Commit"}, {"R
                {"Truncate", "Commit"}, {"Truncate", "Restart"}>>
 
 \* plain churn: two commits in their own segments, then consecutive truncations
-ScriptChurn == <<{"Append"}, {"Commit", "Rollback"}, {"Append"}, {"Commit"}, {"Truncate"}, {"Truncate", "Restart"}, {"Truncate"}>>
+ScriptChurn == <<{"Append"}, {"Commit", "Rollback"}, {"Append", "AppendEx"}, {"Commit"}, {"Truncate"}, {"Truncate", "Restart"}, {"Truncate"}>>
 
 Init == /\ segs = <<<<>>>> /\ first = 0 /\ cp = [idx |-> -1, recs |-> <<>>]
         /\ series = {} /\ deleted = <<>> /\ nextRef = 0 /\ pend = NoPend /\ acc = {}
